@@ -4,6 +4,8 @@ very parse trees the runner used (M, suite T2/T4 via t2tie.run_scripts) and by t
 specification Ast/Spec.v evaluated inside Coq on the abstract syntax (S)."""
 from __future__ import annotations
 
+import os
+
 import astgen
 import t2tie
 from common import coq_eval
@@ -472,6 +474,31 @@ def exactness_check(pid: str, part: str) -> int:
     # ---- UPDATE / MERGE / SELECT INTO: layout of the renderer, implementation vs specification (C01 lists these kinds) ----
     import dmltie
     dmltie.run(ck, r, quick, spec_failures, disagreements, dist, part)
+
+    # ---- layout of the renderers added in round 6 (COPY / file references, CTE chains, join groups) against the real parser, and
+    # implementation vs specification on the path statements: the sub-agents' own validation scripts (harness/layout/*.py), run
+    # as they are; a LAYOUT mismatch breaks the transfer of the respective theorem, a TABLES mismatch is a failing input --------
+    if part == "tables":
+        import subprocess
+        import sys as _sys
+        from common import REPO as _REPO, VERIF as _VERIF
+        lay = _VERIF / "harness" / "layout"
+        envp = dict(os.environ, PYTHONPATH="%s:%s:%s" % (_REPO, _VERIF / "harness", lay))
+        jobs = [("T3-render-path", [str(lay / "check_render_path.py"), "8" if quick else "60", str(20260930 + seed())],
+                 "c01_exact_on_copy_and_file_references (Tree/RenderPath.v)"),
+                ("T3-render-chain+group", [str(lay / "check_render_chain.py"), "groups"],
+                 "c01_exact_on_cte_chains (Tree/RenderChain.v), c01_join_groups_refuted (Tree/RenderGroup.v)")]
+        for name, argv, thm in jobs:
+            pr = subprocess.run([_sys.executable] + argv, capture_output=True, text=True, env=envp, timeout=1500)
+            ck.count()
+            out = pr.stdout + pr.stderr
+            dist.setdefault("layout_suites", {})[name] = (out.strip().splitlines() or ["?"])[-2:]
+            tm = [ln for ln in out.splitlines() if ln.startswith("TABLES MISMATCH")]
+            for ln in tm:
+                spec_failures.append({"suite": name, "statement": ln, "detail": out[out.index(ln):][:600],
+                                      "spec": "the implementation reports the specified tables / paths inside the theorem's guard"})
+            if pr.returncode != 0 and not tm:
+                disagreements.append({"suite": name, "output": out[-2500:], "broken_transfer": thm})
 
     # ---- recorded defect classes: replay the witnesses -------------------------------------------------
     from sqllineage.runner import LineageRunner
